@@ -285,17 +285,29 @@ def _validate():
 
 
 def obligations(tier):
+    T = ("thorough",)
     obs = [
         make_edge("C03.edge_face.2f3", 2, 3, 4, ["edge_face", "hole"], cost=2),
-        make_edge("C03.edge_face.2f4", 2, 4, 6, ["edge_face"], cost=9),
-        make_edge("C03.hole.2f4", 2, 4, 6, ["hole"], cost=9),
         make_edge("C03.face_face.2f3", 2, 3, 5, ["face_face"], cost=3),
-        make_edge("C03.face_face.2f4", 2, 4, 5, ["face_face"], cost=9),
-        make_edge("C03.face_face.3f3", 3, 3, 5, ["face_face"], cost=9),
+        make_edge("C03.edge_face.2f34", 2, 4, 5, ["edge_face"], sizes=[3, 4], cost=9),
+        make_edge("C03.hole.2f43", 2, 4, 5, ["hole"], sizes=[4, 3], cost=9),
+        make_edge("C03.face_face.2f34", 2, 4, 5, ["face_face"], sizes=[3, 4], cost=9),
         make_node("C03.node_face.2f3", 2, 3, 4),
-        make_node("C03.node_face.3f3.n4", 3, 3, 4, cost=8, tiers=("thorough",)),
-        make_node("C03.node_face.2f4.n5", 2, 4, 5, cost=8, tiers=("thorough",)),
+        make_node("C03.node_face.2f34.n4", 2, 4, 4, sizes=[3, 4], cost=3),
         make_supplied("C03.supplied"),
-        make_edge("C03.all.3f3", 3, 3, 5, ["edge_face", "hole"], tiers=("thorough",), cost=20),
+        # thorough: every padding layout of 2 faces <= 4 corners, 3 triangles, larger node_face scopes
+        make_edge("C03.edge_face.2f4", 2, 4, 6, ["edge_face"], tiers=T, cost=20),
+        make_edge("C03.hole.2f4", 2, 4, 6, ["hole"], tiers=T, cost=20),
+        make_edge("C03.face_face.2f4.s33", 2, 4, 5, ["face_face"], sizes=[3, 3], tiers=T, cost=20),
+        make_edge("C03.face_face.2f4.s34", 2, 4, 5, ["face_face"], sizes=[3, 4], tiers=T, cost=20),
+        make_edge("C03.face_face.2f4.s43", 2, 4, 5, ["face_face"], sizes=[4, 3], tiers=T, cost=20),
+        make_edge("C03.face_face.2f4.s44", 2, 4, 5, ["face_face"], sizes=[4, 4], tiers=T, cost=30),
+        make_edge("C03.face_face.3f3", 3, 3, 5, ["face_face"], tiers=T, cost=30),
+        make_edge("C03.edge_face.3f3", 3, 3, 5, ["edge_face", "hole"], tiers=T, cost=20),
+        make_node("C03.node_face.3f3.n4", 3, 3, 4, cost=8, tiers=T),
+        make_node("C03.node_face.2f4.n5", 2, 4, 5, cost=8, tiers=T),
     ]
+    for o in obs:
+        if o.tiers == T:
+            o.timeout_s, o.explore_budget_s, o.query_timeout_s = 14000, 12000, 3000
     return [o for o in obs if tier in o.tiers]
